@@ -1363,6 +1363,11 @@ impl<'a, SE: extensions::ShellExtensions> WordExpander<'a, SE> {
                     );
                 }
 
+                // Nothing to slice (and no offsets to validate) for an unset parameter.
+                if expanded_parameter.undefined {
+                    return Ok(expanded_parameter);
+                }
+
                 #[expect(clippy::cast_possible_wrap)]
                 let expanded_parameter_len = expanded_parameter.polymorphic_len() as i64;
                 let mut expanded_offset = offset.eval(self.shell, self.params, false).await?;
@@ -1373,25 +1378,42 @@ impl<'a, SE: extensions::ShellExtensions> WordExpander<'a, SE> {
                     expanded_offset += expanded_parameter_len;
 
                     // If the offset is still negative, then we need to yield an empty slice.
-                    // We force the offset to the end of the array.
+                    // We force the offset past the end of the array.
                     if expanded_offset < 0 {
-                        expanded_offset = expanded_parameter_len;
+                        expanded_offset = expanded_parameter_len + 1;
                     }
                 }
 
-                // Make sure the offset is within the bounds of the item.
-                let expanded_offset = min(expanded_offset, expanded_parameter_len);
+                // An offset past the end yields an empty slice, whatever the length says.
+                if expanded_offset > expanded_parameter_len {
+                    #[expect(clippy::cast_sign_loss)]
+                    return Ok(expanded_parameter.polymorphic_subslice(
+                        expanded_parameter_len as usize,
+                        expanded_parameter_len as usize,
+                    ));
+                }
 
                 let end_offset = if let Some(length) = length {
-                    let mut expanded_length = length.eval(self.shell, self.params, false).await?;
+                    let expanded_length = length.eval(self.shell, self.params, false).await?;
                     if expanded_length < 0 {
-                        expanded_length += expanded_parameter_len;
+                        // A negative length is an offset from the end of the value, i.e., it
+                        // designates where the slice ends; that must not be before its start.
+                        // (It is not allowed at all when slicing arrays or positional parameters.)
+                        let end_offset = expanded_parameter_len + expanded_length;
+                        if end_offset < expanded_offset || expanded_parameter.from_array {
+                            return Err(error::ErrorKind::BadSubstitution(std::format!(
+                                "{expanded_length}: substring expression < 0"
+                            ))
+                            .into());
+                        }
+
+                        end_offset
+                    } else {
+                        let expanded_length =
+                            min(expanded_length, expanded_parameter_len - expanded_offset);
+
+                        expanded_offset + expanded_length
                     }
-
-                    let expanded_length =
-                        min(expanded_length, expanded_parameter_len - expanded_offset);
-
-                    expanded_offset + expanded_length
                 } else {
                     expanded_parameter_len
                 };
